@@ -151,6 +151,33 @@ def run(ctx):
                 if np.abs(a - b).max() > 3e-2 * a.max():
                     ctx.violation({'kind': 'image-after-rescale', 'upscale': s > 1, 'nseg>1': nseg > 1},
                                   {'shape': shape, 'scale': s, 'max_rel_diff': float(np.abs(a - b).max() / a.max())}, case=None)
+    # a plane that carries fitted tilt is still the same optics after rescaling (odd sizes matter: the tilt pivots about the
+    # array centre sample, so the content must be resampled about that sample as well)
+    for shape, s_ in (((49, 49), 2.0), ((49, 49), 0.5), ((49, 61), 1.5), ((48, 48), 0.77), ((48, 48), 2.0)):
+        for nseg in (1, 3):
+            pl = smooth_plane(lentil, shape, [[1, 64], [1, 64]], nseg)
+            m_, n_ = shape
+            rr_, cc_ = np.meshgrid(np.arange(m_) - m_ // 2, np.arange(n_) - n_ // 2, indexing='ij')
+            # one Gaussian sub-aperture per segment, vanishing towards the segment's edges (smooth on the grid, hard edges carry no light)
+            edges_ = np.linspace(0, n_, nseg + 1).astype(int)
+            amp_ = np.zeros(shape)
+            for k_ in range(nseg):
+                c0_ = (edges_[k_] + edges_[k_ + 1] - 1) / 2 - n_ // 2
+                wd_ = (edges_[k_ + 1] - edges_[k_]) / 6.0
+                amp_ += np.exp(-((cc_ - c0_) ** 2 + rr_ ** 2 * (n_ / nseg / m_) ** 2) / (2 * wd_ ** 2))
+            pl.amplitude = amp_
+            pl.opd = 1.5e-9 * (rr_ ** 2 + cc_ ** 2) + 3e-8 * rr_ - 2e-8 * cc_      # defocus + tilt: every segment has its own slope (up to 0.07 waves per sample)
+            nleaf += 1
+            try:
+                pf = pl.fit_tilt()
+                i1 = lentil.propagate_dft(lentil.Wavefront(1e-6) * pf, pixelscale=2e-6, shape=32, oversample=1).intensity
+                i2 = lentil.propagate_dft(lentil.Wavefront(1e-6) * pf.rescale(s_), pixelscale=2e-6, shape=32, oversample=1).intensity
+            except Exception as ex:
+                ctx.violation({'kind': 'fitted-tilt-plane-' + type(ex).__name__}, {'shape': shape, 'scale': s_, 'error': repr(ex)[:200]}, case=None)
+                continue
+            if np.abs(i2 - i1).max() > 1e-2 * i1.max():
+                ctx.violation({'kind': 'image-after-rescale', 'fitted_tilt': True, 'nseg>1': nseg > 1, 'odd_size': bool(m_ % 2 or n_ % 2 or int(np.ceil(m_ * s_)) % 2)},
+                              {'shape': shape, 'scale': s_, 'max_rel_diff': float(np.abs(i2 - i1).max() / i1.max())}, case=None)
     # a plane given by a mask and a SCALAR amplitude (the documented default amplitude = 1) is the same optics as the one with that
     # amplitude written out as an array: transmitted power is preserved
     for shape in ((32, 32), (33, 31), (24, 40)):
